@@ -150,12 +150,29 @@ type NodeOpt struct {
 	Clock             func() int
 	Config            *cfg.ConsensusConfig
 	RealTicker        bool // keep the production timeout ticker (for nodes that are really Start()ed)
+	// Optional injection (nil = fresh MemDB / fresh recapp): the databases the node's stores run on (e.g. a
+	// crash-injecting wrapper) and the application.  A given App is used as it is (the caller has run
+	// InitChain on it or it continues an existing chain); AppOptions configures the app NewNode creates itself.
+	BlockDB    dbm.DB
+	StateDB    dbm.DB
+	EvDB       dbm.DB
+	App        *recapp.App
+	AppOptions *recapp.Options
 }
 
 // NewNode assembles a node exactly like newStateWithConfigAndBlockStore in the
 // repo's tests (plus a real evidence pool), but does not Start() it.
 func NewNode(idx int, genDoc *types.GenesisDoc, key crypto.PrivKey, opt NodeOpt) *Node {
-	n := &Node{Idx: idx, BlockDB: dbm.NewMemDB(), StateDB: dbm.NewMemDB(), EvDB: dbm.NewMemDB(), PreState: map[int64]sm.State{}}
+	n := &Node{Idx: idx, BlockDB: opt.BlockDB, StateDB: opt.StateDB, EvDB: opt.EvDB, App: opt.App, PreState: map[int64]sm.State{}}
+	if n.BlockDB == nil {
+		n.BlockDB = dbm.NewMemDB()
+	}
+	if n.StateDB == nil {
+		n.StateDB = dbm.NewMemDB()
+	}
+	if n.EvDB == nil {
+		n.EvDB = dbm.NewMemDB()
+	}
 	n.build(genDoc, key, opt)
 	return n
 }
@@ -178,7 +195,11 @@ func (n *Node) build(genDoc *types.GenesisDoc, key crypto.PrivKey, opt NodeOpt) 
 		}
 	}
 	if n.App == nil {
-		n.App = recapp.New(recapp.Options{})
+		ao := recapp.Options{}
+		if opt.AppOptions != nil {
+			ao = *opt.AppOptions
+		}
+		n.App = recapp.New(ao)
 		n.App.InitChain(chaingen.InitChainReq(genDoc))
 	}
 	n.Conns = proxy.NewAppConns(proxy.NewLocalClientCreator(n.App))
